@@ -23,7 +23,7 @@ sys.path.insert(0, os.path.join(HERE, 'tools'))
 import vx  # noqa: E402
 
 REPO = os.environ.get("VERIF_REPO", "/repo")
-VERUS_RLIMIT = os.environ.get("VERIF_VERUS_RLIMIT", "40")
+VERUS_RLIMIT = os.environ.get("VERIF_VERUS_RLIMIT", "100")
 
 VERIF_ERR_PATTERNS = [
     (r'^precondition not met', 'pre'),
@@ -424,7 +424,7 @@ def decide(prop, cfg, tier, seed, work, args, t0):
     failed_ids = set()
     for fl in failed:
         failed_ids.add(fl['obligation'])
-        k = [x for x in known if x['obligation'] == fl['obligation']]
+        k = [x for x in known if x['obligation'] == fl['obligation'] or x['obligation'] == sanitize(fl['obligation'])]
         if k:
             known_hits.append((k[0], fl))
         else:
@@ -441,7 +441,7 @@ def decide(prop, cfg, tier, seed, work, args, t0):
     for (k, fl) in known_hits:
         print("KNOWN-FINDING: property=%s %s [%s]" % (prop, k['what'], k['obligation']))
     # a known finding that no longer fails is reported (not an error)
-    stale = [k for k in known if k['obligation'] not in failed_ids]
+    stale = [k for k in known if k['obligation'] not in failed_ids and k['obligation'] not in set(sanitize(x) for x in failed_ids)]
     for k in stale:
         print("NOTE: known finding %s did not fail in this run" % k['obligation'])
 
@@ -493,6 +493,7 @@ def decide(prop, cfg, tier, seed, work, args, t0):
     disc = len([o for o in obligations if not o['assumed'] and o['id'] not in failed_ids
                 and not (o['kind'] in ('safety',) and o['fn'] in failed_fns)])
     kf_obl = len(set(k['obligation'] for k, _ in known_hits))
+    kf_ids = set(fl['obligation'] for _, fl in known_hits)
     level = cfg.get('level', 'proof')
     samples = [dict(obligation=o['id'], kind=o['kind'], backend=o['backend'], unit=o['unit']) for o in obligations[:12]]
     coverage = dict(
